@@ -82,6 +82,19 @@ HARNESSES.append(
                   {"NENT": 3, "CF": 0, "_unwindset": DF_UW(3), "_tier": "thorough"}, {"NENT": 3, "CF": 1, "_unwindset": DF_UW(3), "_tier": "thorough"}],
          unwind=6, backends=["default", "kissat"],
          bound="2 / 3 entries, names of 1..4 symbolic bytes, inode, type, hashes symbolic; case-sensitive and casefolded directory"))
+CT_GROW_UW = ["main.%d:2000" % i for i in range(5)] + ["alloc_size_dir.0:2000", "alloc_size_dir.1:60", "ref_hash_of_leaf.0:60",
+              "calculate_tree.0:60", "calculate_tree.1:60", "calculate_tree.2:60"]
+HARNESSES.append(
+    dict(name="calctree", src="calctree.c", extra_src=["lib/ext2fs/dir_iterate.c"],
+         funcs=["calculate_tree", "alloc_blocks", "set_root_node", "set_int_node", "get_next_block"],
+         cut_statics={"e2fsck/rehash.c": ["alloc_size_dir"]},
+         cbmc_flags=["--max-field-sensitivity-array-size", "8192"],
+         configs=[{"NLEAF": n, "GROW": None, "_unwindset": CT_GROW_UW} for n in (5, 29)],
+         unwind=9, unwindset=["main.0:60", "main.1:60", "main.2:9", "ref_hash_of_leaf.0:60", "calculate_tree.0:60", "calculate_tree.1:60", "calculate_tree.2:60"],
+         backends=["default", "kissat"],
+         bound="mirror of C01 calctree, GROW configs only: block size 64, 5 (two-level) and 29 (three-level) leaves, the output area is exactly root + leaves "
+               "and is MOVED (old area poisoned with 0xA5) when the first interior node is appended; the rebuilt directory keeps its index: root count/limit "
+               "correct in the NEW area, every leaf reachable once and in order, nothing written into the released area"))
 MANIFEST = {
     "text": "Kernel-level slice (partial). Bounded-exhaustive on one fully symbolic directory block: fill_dir_block indexes exactly the live entries "
             "(minus . and .. in non-compress mode) with the right inode, size sum and parent; fill_dir_block -> copy_dir_entries preserves the multiset "
